@@ -16,7 +16,7 @@ RULE = ('each case is one session (connect + 1-4 ops over all operations) run wi
         'equal the unlimited run when the calls return and be a prefix when one raises; a stuck transport must lead to a raise within the C11 bound. '
         'non-trivial = >= 1 write was accepted partially; distinct = event-log digests')
 ASSUMPTIONS = ['a transport reports the number of bytes it accepted (BaseTransport.bulk_write contract); accepting nothing is reported as the transport timeout error or as 0']
-EXPECT_PROBES = {'all': ['short_writes', 'c15_tcp_leg', 'c15_stuck', 'c15_zero_capacity_call']}
+EXPECT_PROBES = {'all': ['short_writes', 'c15_tcp_leg', 'c15_stuck', 'c15_zero_capacity_call', 'c15_eagain']}
 KINDS = ['shell', 'exec_out', 'streaming_shell', 'list', 'stat', 'pull', 'push', 'push', 'root']
 TCP_LEG = True
 OWN = ('wire-format', 'truncated', 'sequence-differs', 'not-a-prefix', 'hang', 'no-termination', 'bound-exceeded', 'wrong-result', 'stuck-returned')
@@ -33,18 +33,22 @@ def generate(seed, tier):
     scn['config']['stop_on_error'] = True
     scn['config']['step_cap'] = 300000
     leg = g.pick(['mem', 'mem', 'tcp']) if TCP_LEG else 'mem'
+    case_extra = {}
     if leg == 'tcp':
         scn['transport'] = 'tcp'
         scn['tcp'] = {'sndbuf': g.pick([64, 512, 4096, 65536]), 'drain': g.pick([1, 64, 1000, 100000]), 'drain_every': g.pick([1e-5, 1e-3, 0.05])}
         scn['config']['short'] = None
         for op in scn['actors'][0]:
             op['tt'] = g.pick([1.0, 5.0])
+        if g.chance(0.3):
+            scn['api'] = 'sync'
+            case_extra['eagain_pick'] = g.int(0, 1 << 30)
     for op in scn['actors'][0]:
         if op['op'] == 'push' and not op.get('mtime'):
             op['mtime'] = 1234567     # mtime 0 means 'now', which legitimately differs between the paired runs
         if op['op'] == 'push' and op['content']['size'] > 60000:
             op['content']['size'] = g.int(1000, 60000)
-    return {'seed': seed, 'scn': scn, 'leg': leg}
+    return dict({'seed': seed, 'scn': scn, 'leg': leg}, **case_extra)
 
 
 def _msgs(dev):
@@ -62,9 +66,19 @@ def evaluate(case, tapes=None):
     run0, tape0 = run_scn(c0, 'scn_base', 0, tapes, seed_idx=0)
     absorb(out, run0, tape0)
     if O.check_session(run0, base) or run0.abort:
+        out['probes']['base_run_failed'] = 1
         out['digest'] = run0.digest()
         out['sample'] = brief_scn(base, run0)
         return out
+    if case.get('eagain_pick') is not None:
+        # one send() fails with EAGAIN although select() reported the socket writeable; the call index is drawn among the writes of the base run
+        wr = [c[0] for c in run0.link.calls if c[2] == 'w']
+        scn = copy.deepcopy(scn)
+        if wr:
+            # indices differ between the in-memory base run and the TCP run; pick by ordinal among writes
+            scn['config']['eagain_nth_write'] = case['eagain_pick'] % len(wr)
+        case = dict(case)
+        case['scn'] = scn
     try:
         run, tape = run_scn(case, 'scn', 1, tapes, seed_idx=0)
     except ImportError:
@@ -82,6 +96,13 @@ def evaluate(case, tapes=None):
         pr['c15_stuck'] = 1
     if getattr(run, 'sock', None) is not None and not run.abort:
         run.sock.flush(run.clock.now)       # bytes the kernel accepted are delivered eventually
+    eag = getattr(run.link, 'eagain_fired', None)
+    if eag is not None:
+        pr['c15_eagain'] = 1
+        bad = [r for r in run.results[0] if not r['ok']]
+        from .common import exc_chain
+        if not bad or 'BlockingIOError' not in exc_chain(bad[0]):
+            probs.append(O.P('truncated', 'send() failed with EAGAIN (nothing written) but %s' % ('every call returned normally' if not bad else '%s raised %s instead of surfacing it' % (bad[0]['op'], bad[0]['exc']))))
     recs = run.results[0]
     all_ok = all(r['ok'] for r in recs) and len(recs) == len(scn['actors'][0])
     a, b = _msgs(run0.device), _msgs(run.device)
